@@ -79,7 +79,7 @@ chk(
 chk(
     "C06",
     "differential against a reference renderer written from the statement + renderer-independent column/comma predicates, over finite format grids and seeded Hypothesis libraries x formats",
-    "Exploration: the output of writer.write / write_string(unparse_stack=[]) is compared byte for byte with a reference renderer on a finite grid (3 libraries x value_column 0..40,'auto' x 4 indents x comma x 3 separators x 2 failed-block comments) and on random libraries of every block kind (incl. plain / duplicate-key / duplicate-field / middleware-error failed blocks with multi-line raw) x random formats; independently of the renderer, on single-line values every field must be on one line as indent+key+pad+' = '+value with the value at column len(indent)+value_column iff the key is short enough, 'auto' must give one common minimal column over all entries, the comma rule must hold, no non-blank separator may follow the last block, format object and library must be unchanged, one format object re-used for several writes with its settings changed in between must obey the current settings each time, and the value_column setter must reject exactly negative ints and non-'auto' non-ints.",
+    "Exploration: the output of writer.write / write_string(unparse_stack=[]) is compared byte for byte with a reference renderer on a finite grid (3 libraries x value_column 0..40,'auto' x 4 indents x comma x 3 separators x 2 failed-block comments) and on random libraries of every block kind (incl. plain / duplicate-key / duplicate-field / middleware-error failed blocks with multi-line raw) x random formats; independently of the renderer, on single-line values every field must be on one line as indent+key+pad+' = '+value with the value at column len(indent)+value_column iff the key is short enough, 'auto' must give one common minimal column over all entries, the comma rule must hold, no non-blank separator may follow the last block, format object and library must be unchanged, one format object re-used for several writes with its settings changed in between must obey the current settings each time, a library whose views were read and which was then edited through the public model API (field keys/values, fields replaced or added, entry key, Library.replace) must be written as it is now, and the value_column setter must reject exactly negative ints and non-'auto' non-ints.",
     "Trusted: pbt/props/C06.py ref_render and the column predicates. Failed blocks with raw=None and parsing_failed_comment strings with other placeholders are outside the generated domain.",
     "DESIGN.md 4 C06",
 )
@@ -147,7 +147,7 @@ chk(
 chk(
     "C07",
     "invariant oracle (canonical form before/after, identity-disjointness of all reachable mutable objects) over the finite grid of every shipped middleware configuration x libraries with every block kind, and seeded Hypothesis stacks of 1-3 configurations",
-    "Exploration: every one of the 49 middleware configurations (all 16 shipped classes x option sets, constructed with allow_inplace_modification=False; block sorter always) x 7 documents x 6 preparation stacks (which add list / NameParts values and MiddlewareErrorBlocks for invalid names and raising converters to libraries that already hold plain, duplicate-key and duplicate-field failed blocks), plus random stacks of 1-3 configurations on random / damaged grammar documents: after every stage the stage input and the original library must have an unchanged canonical form (also when a type-incompatible stage raises), the result must share no mutable object (library, lists, dicts, blocks, field lists, fields, metadata, NameParts) with its input or with the original, the library must be deep-copyable, and write_string (default stack, 4+ formats) must leave library and format unchanged and return identical text when called twice.",
+    "Exploration: every one of the 49 middleware configurations (all 16 shipped classes x option sets, constructed with allow_inplace_modification=False; block sorter always) x 7 documents x 6 preparation stacks (which add list / NameParts values and MiddlewareErrorBlocks for invalid names and raising converters to libraries that already hold plain, duplicate-key and duplicate-field failed blocks), plus random stacks of 1-3 configurations on random / damaged grammar documents: after every stage the stage input and the original library must have an unchanged canonical form (also when a type-incompatible stage raises), the result must share no mutable object (library, lists, dicts, blocks, field lists, fields, metadata, NameParts) with its input or with the original, every copy-mode stage is applied a second time to the same input (same result, input and first result untouched), the library must be deep-copyable, and write_string (default stack, 4+ formats) must leave library and format unchanged and return identical text when called twice.",
     "Trusted: canon()/mutable_ids() (validated against deepcopy on every case: canon(deepcopy(x)) == canon(x) or exit 2); the value-type tracker that decides whether a stage is type-compatible (exceptions from incompatible stages are allowed, the input must still be untouched).",
     "DESIGN.md 4 C07",
 )
@@ -162,7 +162,7 @@ chk(
 chk(
     "C20",
     "differential testing of the four entry points against the documented composition, with order-sensitive probe middlewares and block-protocol probes (finite grids + seeded Hypothesis stacks)",
-    "Exploration: 18 documents (grammar-derived with colliding keys and failed blocks, non-ASCII Latin and CJK) x every stack of <= 2 members of (2 order-sensitive library probes + 3 shipped middlewares) in each of parse_stack / append_middleware / unparse_stack / prepend_middleware (and write_file's aliases), all both-arguments combinations on every entry point, parse_file x {utf-8, latin-1, gbk, utf-16}, write_file x {path, StringIO, file object x 4 encodings} x 3 formats, block probes returning for each of the 5 block kinds each of 14 result kinds (None, [], (), block, lists/tuples of 1-3 blocks, generator, object, 0, False, list with a non-block, str, dict), and random stacks of <= 3 members in both arguments: the outcome (canonical library / text, or exception type) must equal the documented composition computed by the harness (split; given stack in order, or ResolveStringReferences + RemoveEnclosing then the additions; additions then brace-enclosing on a copy; writer), ValueError iff both arguments are given, TypeError for non-block results, each block kind dispatched to its own transform_* method.",
+    "Exploration: 18 documents (grammar-derived with colliding keys and failed blocks, non-ASCII Latin and CJK) x every stack of <= 2 members of (2 order-sensitive library probes + 3 shipped middlewares) in each of parse_stack / append_middleware / unparse_stack / prepend_middleware (and write_file's aliases), all both-arguments combinations on every entry point, parse_file x {utf-8, latin-1, gbk, utf-16}, write_file x {path, StringIO, file object x 4 encodings} x 3 formats, block probes returning for each of the 5 block kinds each of 14 result kinds (None, [], (), block, lists/tuples of 1-3 blocks, generator, object, 0, False, list with a non-block, str, dict), and random stacks of <= 3 members in both arguments: the outcome (canonical library / text, or exception type) must equal the documented composition computed by the harness (split; given stack in order, or ResolveStringReferences + RemoveEnclosing then the additions; additions then brace-enclosing on a copy; writer), ValueError iff both arguments are given, TypeError for non-block results, each block kind dispatched to its own transform_* method, a block returned as the same instance under a new key is re-registered under that key, and the lists returned by default_parse_stack()/default_unparse_stack() can be edited by the caller without changing later calls.",
     "Trusted: the probe middlewares and the reference fold in pbt/props/C20.py; shipped middlewares are used as black boxes on both sides (their own behaviour is the subject of other checks). Documents contain no carriage return.",
     "DESIGN.md 4 C20",
 )
